@@ -53,12 +53,14 @@ def o191(ctx):
 
     def assume(fn_, node_, av_, module_=None):
         # `<array>.size == 0` (no candidate left) is the early-return path; the rule is about the pair returned when there is one
-        n_, neg = node_, False
+        pol = empty_test_polarity(node_)  # any spelling of "is it empty": x.size == 0, not len(x), x.shape[0] < 1 ...
+        if pol is not None:
+            return not pol  # the arrays are not empty on the path the rule is about
+        n_, neg_ = node_, False
         while isinstance(n_, ast.UnaryOp) and isinstance(n_.op, ast.Not):
-            n_, neg = n_.operand, not neg
-        if isinstance(n_, ast.Compare) and len(n_.ops) == 1 and isinstance(n_.ops[0], (ast.Eq, ast.NotEq, ast.Gt)) and isinstance(n_.left, ast.Attribute) \
-                and n_.left.attr == "size" and isinstance(n_.comparators[0], ast.Constant) and n_.comparators[0].value == 0:
-            return (not isinstance(n_.ops[0], ast.Eq)) != neg
+            n_, neg_ = n_.operand, not neg_
+        if isinstance(n_, ast.Call) and isinstance(n_.func, ast.Attribute) and n_.func.attr == "any" and not n_.args:
+            return not neg_  # `mask.any()`: some candidate is admissible on the path the rule is about
         return am(fn_, node_, av_, module_)
 
     it = Interp(ctx.prog, assume=assume)
@@ -117,6 +119,8 @@ def o191(ctx):
     ctx.count(1, {"returned index": tm.show(ids_t)[:200]})
     ok = fi is not None and fd is not None and sorted(x.key() for x in fi[1]) == sorted(x.key() for x in fd[1]) and fi[1] \
         and all(tm.cval(x) == 0 for x in fi[0][1] + fd[0][1])
+    if not ok and (fi is None or fd is None) and (tm.contains(ids_t, lambda n: n.op == "ite") or tm.contains(dist_t, lambda n: n.op == "ite")):
+        raise Unsupported("get_nn_dist: the returned pair depends on a test the rule does not decide (several paths return different selections)", fn)
     if not ok:
         ctx.finding(q, "returned neighbour", "index and distance must be filtered by the same masks and element 0 of both returned "
                     "(the nearest admissible neighbour with its own distance)", fn, m, index=tm.show(ids_t)[:200], distance=tm.show(dist_t)[:200])
@@ -222,6 +226,41 @@ def o194(ctx):
             if "geom4" not in chain.written or dist is None or not tm.has_sym(dist, "current_dist"):
                 ctx.finding(q, label, f"{label}: the distance of the new link must be recorded on the last particle of the chain that is put in "
                             "front (on every merging path)", fn, m)
+            if cm_none:
+                # object numbers after a plain prefix: the new chain and the part of the old chain it is put in front of carry ONE number, and a
+                # head that is cut off the old chain (closest particle not its first) carries ANOTHER one
+                st_ = [e for e in it.events if e.kind == "store" and e.name == "columns" and e.fn == q and e.extra.get("names") == ["object_id"]]
+                cls_old = traced.col("object_id") if False else None
+                v_chain = chain.cols.get("object_id")
+                def conj_(t_):
+                    return [x for a_ in t_.args for x in conj_(a_)] if t_.op == "and" else [t_]
+                head = [e for e in st_ if e.extra.get("frame") is traced and e.extra.get("mask") is not None
+                        and any(c_.op in ("lt", "le") and c_.args[0] == sym("tr:geom2") for c_ in conj_(e.extra["mask"]))]
+                rest = [e for e in st_ if e.extra.get("frame") is traced and e not in head]
+                # the old chain's number: what the rows of the closest particle's chain are selected by
+                sel_cls = None
+                for e in st_ + [e for e in it.events if e.kind == "store" and e.name == "columns" and e.fn == q and e.extra.get("frame") is traced]:
+                    mk_ = e.extra.get("mask")
+                    if mk_ is None:
+                        continue
+                    for n in tm.walk(mk_):
+                        if n.op == "eq" and n.args[0] == sym("tr:object_id") and sel_cls is None:
+                            sel_cls = n.args[1]
+                if sel_cls is None or v_chain is None:
+                    raise Unsupported("add_chain_prefix: object number of the old chain / the new chain not recognised", fn)
+                # every row of the new chain's table carries the chain's own number: its first element and the column are the same number
+                one = lambda t_: tm.subst(t_, {n: n.args[1] for n in tm.walk(t_) if n.op == "call" and n.args[0] == "elem" and n.args[1] == sym("ch:object_id")})
+                v_rest = one(to_term(rest[-1].args[2]) if rest else sel_cls)
+                v_chain = one(v_chain)
+                ctx.count(1, {"path": label, "number of the new chain": tm.show(v_chain)[:60], "number of the old chain's remaining part": tm.show(v_rest)[:60],
+                              "number of a cut-off head": tm.show(to_term(head[-1].args[2]))[:60] if head else None})
+                if v_chain != v_rest:
+                    ctx.finding(q, label, f"{label}: the new chain and the chain it is put in front of must end up with one object number "
+                                f"(new chain: {tm.show(v_chain)[:60]}, old chain: {tm.show(v_rest)[:60]})", fn, m)
+                if not first and head and one(to_term(head[-1].args[2])) == v_rest:
+                    ctx.finding(q, head[-1].node, f"{label}: the head cut off the old chain gets the same object number as the merged chain "
+                                f"({tm.show(v_rest)[:60]}): head, new chain and the rest of the old chain are then one object with repeated order numbers",
+                                head[-1].node, m)
 
 
 def block_of(mod, node):
@@ -384,6 +423,23 @@ def o193(ctx):
         okd = len(rec) == 1 and len(nxt) == 1 and block_of(m, rec[0]) is block_of(m, nxt[0])
     if not okd:
         ctx.finding(q, c, "the distance recorded for the former particle must be the one returned together with the chosen next particle", c, m)
+    else:
+        # the successor comes from the window search and from nowhere else: every other assignment to it is the "no successor" marker
+        for n in ast.walk(fl):
+            if n is par or not isinstance(n, (ast.Assign, ast.AugAssign, ast.AnnAssign)):
+                continue
+            tg_ = n.targets if isinstance(n, ast.Assign) else [n.target]
+            if not any(isinstance(x, ast.Name) and x.id == i_name and isinstance(x.ctx, ast.Store) for t_ in tg_ for x in ast.walk(t_)):
+                continue
+            ctx.count(1)
+            v_ = getattr(n, "value", None)
+            marker = isinstance(n, ast.Assign) and len(tg_) == 1 and isinstance(tg_[0], ast.Name) and (
+                (isinstance(v_, ast.UnaryOp) and isinstance(v_.op, ast.USub) and isinstance(v_.operand, ast.Constant) and v_.operand.value == 1)
+                or (isinstance(v_, ast.Constant) and v_.value in (-1, None)))
+            if not marker:
+                ctx.finding(q, n, f"the next particle of a chain (`{i_name}`) is also chosen by `{src(n)[:80]}`, not by the search that applies the "
+                            "window (get_nn_dist with max_distance, min_distance and the remaining flags): a successor found another way is not "
+                            "tested against (min_distance, max_distance]", n, m)
     # the distance field of a chain row is written by the forward step (with the distance of the chosen link) and by the connection helpers
     # only: any other store into it (a reset, a default) can wipe the distance of a link that exists
     dist_param = next((a_.arg for a_ in fn.args.args + fn.args.kwonlyargs if a_.arg == "store_dist"), None)
@@ -414,6 +470,15 @@ def o193(ctx):
             v_ = getattr(n, "value", None)
             conv = isinstance(n, ast.Assign) and isinstance(v_, ast.Call) and len(v_.args) == 1 and not v_.keywords and isinstance(v_.args[0], ast.Name) \
                 and v_.args[0].id == p_ and (ctx.prog.resolve(m, v_.func) or src(v_.func)) in ("builtins.float", "float", "numpy.float64", "numpy.float32", "numpy.double")
+            if not conv and isinstance(n, ast.Assign):
+                # `def f(p=None)` ... `if p is None: p = <the pinned default>`: the caller's value is kept, only "not given" is resolved
+                from sa import plumbing as _pl
+                from .defaults_baseline import DEFAULTS as _D
+                par_ = m.parents.get(n)
+                was_ = _D.get(q, {}).get(p_)
+                if isinstance(par_, ast.If) and par_ in fn.body and _pl.filled_default(fn, p_) is not None and was_ is not None \
+                        and _pl.filled_default(fn, p_) == was_ and src(n.value) == was_ and _pl.defaults_of(fn).get(p_) == "None":
+                    conv = True
             if not conv:
                 ctx.finding(q, n, f"trace_chains replaces the caller's `{p_}` (`{src(n)[:80]}`): two particles may be linked only if their sites are "
                             "within (min_distance, max_distance] as the caller gave them; an empty window links nothing", n, m)
